@@ -46,10 +46,72 @@ def canary_relay_hung(traces):
             return c, 'relay attempt never ended'
 
 
+ST_CFG = """SPECIFICATION Spec
+CONSTANTS
+  CT = %d
+  DT = %d
+  MaxTime = %d
+  KF_PerReadData = %s
+  KF_BufferedNoTimer = %s
+  KF_AuthUnscoped = %s
+INVARIANT C14_Bounded
+%sCHECK_DEADLOCK FALSE
+"""
+
+
+def timeouts_validation(extra_cov):
+    """the stalled server sessions, validated as behaviours of the design model ServerTimeouts (spec/Trace_ServerTimeoutsD.tla):
+    the instant the real session is closed must be the instant the model's armed timer fires"""
+    from .. import stimeouts
+    from ..common import MachineryError
+
+    def post(oc, traces, summaries):
+        proj = [p for p in (stimeouts.project(t) for t in traces) if p]
+        if not proj:
+            return
+        full = {t['id']: t for t in traces}
+        can = copy.deepcopy(proj[len(proj) // 2])       # binding canary: the session closed one second early
+        can['id'] = max(p['id'] for p in proj) + 1
+        can['ev'][-1]['now'] -= 1
+        can['ev'][-1]['nn'] -= 1
+        r = stimeouts.validate(proj + [can])
+        ver = r['verdicts']
+        can_ok = ver.pop(can['id'])[0] == 'OK'
+        drift, samples = {}, []
+        for tid, (v, d) in sorted(ver.items()):
+            cls = full[tid].get('cls', 'any')
+            if v == 'DRIFT':
+                drift[cls] = drift.get(cls, 0) + 1
+                if len(samples) < 3:
+                    samples.append({'trace_id': tid, 'cls': cls, 'cfg': full[tid].get('cfg'), 'detail': d})
+            elif v == 'MODEL_VIOL':
+                for c in d:
+                    oc.violation(c, cls + '-model', {'trace_id': tid, 'clauses': d, 'cfg': full[tid].get('cfg'),
+                                                     'by': 'ServerTimeouts flags it on a real session (Trace_ServerTimeoutsD)'}, full[tid])
+        if can_ok and not drift and not oc.violations:
+            raise MachineryError('binding canary accepted by Trace_ServerTimeoutsD: a session closed one second before its timer')
+        extra_cov['design_model_validation'] = {
+            'module': 'Trace_ServerTimeoutsD (EXTENDS ServerTimeouts)', 'traces': len(proj), 'accepted': sum(1 for v in ver.values() if v[0] == 'OK'),
+            'drift': drift, 'tlc_states': r['states'], 'wall_s': r['wall_s'], 'canary_rejected': not can_ok, 'drift_samples': samples}
+    return post
+
+
 def run(tier):
     wd = workdir('C14')
+    q = tier == 'quick'
+    mc = []
+    for ct, dt, mt in ((2, 4, 14),) + (((3, 7, 24),) if not q else ()):
+        mc.append({'name': 'ServerTimeouts: every arrival pattern (complete lines, partial bytes, AUTH exchanges, DATA phases, silence) over %d '
+                           'time units, command timeout %d, data timeout %d' % (mt, ct, dt), 'module': 'ServerTimeouts',
+                   'cfg': flow.write_cfg(wd, 'st_%d_%d.cfg' % (ct, dt), ST_CFG % (ct, dt, mt, 'FALSE', 'FALSE', 'FALSE', 'INVARIANT NotEarly\n'))})
+    for name, kf, exp in (('KF_PerReadData (seeded change C14c-m1): TLC must find the DATA phase that outlives the data timeout', ('TRUE', 'FALSE', 'FALSE'), ['C14_Bounded']),
+                          ('KF_BufferedNoTimer (seeded change C14-m1): TLC must find the wait that no timer ends', ('FALSE', 'TRUE', 'FALSE'), ['C14_Bounded']),
+                          ('KF_AuthUnscoped (D14 as found): TLC must find the AUTH exchange that no timer ends', ('FALSE', 'FALSE', 'TRUE'), ['C14_Bounded'])):
+        mc.append({'name': 'deviation ' + name, 'module': 'ServerTimeouts', 'expect_violation': exp,
+                   'cfg': flow.write_cfg(wd, 'st_kf_%s.cfg' % name.split(' ')[0], ST_CFG % ((2, 4, 14) + kf + ('',)))})
+    extra_cov = {}
     return flow.standard(
-        'C14', tier, [], 'c14s', 'Trace_SmtpServer', 'Trace_SmtpServer.cfg', [canary_late, canary_no421],
+        'C14', tier, mc, 'c14s', 'Trace_SmtpServer', 'Trace_SmtpServer.cfg', [canary_late, canary_no421],
         level='model_checking',
         rule='server side: ten session prefixes (before any command ... inside a second DATA phase) x twelve trickle patterns '
              '(silence, partial command line byte by byte, complete data lines, lone dot, bare CR ...) x three trickle '
@@ -67,7 +129,7 @@ def run(tier):
                      'a session that times out in the middle of a TLS handshake is judged on the bound only: once the handshake has '
                      'begun there is no channel left on which a 421 could be sent'],
         trusted=['TLC 1.8', 'CommunityModules Json/IOUtils', 'harness/sdrv.py', 'harness/vt.py'],
-        wd=wd, clause_filter=lambda c: c.startswith('C14_'),
+        wd=wd, clause_filter=lambda c: c.startswith('C14_'), extra_cov=extra_cov, post=timeouts_validation(extra_cov),
         extras=[{'driver': 'c14r', 'module': 'Trace_Relay', 'cfg': 'Trace_Relay.cfg', 'canaries': [canary_relay_late, canary_relay_hung]},
                 {'driver': 'c14t', 'module': 'Trace_SmtpServer', 'cfg': 'Trace_SmtpServer.cfg', 'args': ('server',)},
                 {'driver': 'c14t', 'module': 'Trace_Relay', 'cfg': 'Trace_Relay.cfg', 'args': ('relay',)}])
